@@ -524,3 +524,47 @@ Lemma loop_defer_swap : forall ext body swaps w h,
   get h (w_back (gate_body ext body swaps w)) = get h (w_buf w1) /\
   get h (w_buf (gate_body ext body swaps w)) = get h (w_back w1).
 Proof. intros ext body swaps w h ND Hin. unfold gate_body. apply swap_all_in; assumption. Qed.
+
+(* ------------------------------------------------------------------ C23: same-tick handoffs *)
+
+Lemma recv_step_direct : forall w loc h,
+  get h (w_buf (fst (recv_step (w, loc) (h, false)))) = [] /\
+  get h (w_back (fst (recv_step (w, loc) (h, false)))) = get h (w_back w) /\
+  get h (snd (recv_step (w, loc) (h, false))) = get h (w_buf w).
+Proof.
+  intros w loc h. unfold recv_step, get. cbn [fst snd].
+  destruct (lookup [] h (w_buf w)); cbn [fst snd w_back w_buf set_back set_buf set_work];
+    rewrite !lookup_update_same; repeat split; reflexivity.
+Qed.
+
+(* a subgraph that receives the same-tick handoff h: its operators read everything that is in
+   the buffer when it starts -- i.e. everything pushed by the producers that ran before it in
+   this tick -- and the buffer is left empty (drained once) *)
+Theorem consumer_gets_buf : forall sg w h,
+  NoDup (map fst (sg_recv sg)) -> In (h, false) (sg_recv sg) ->
+  let r := recv_all sg w in
+  get h (snd r) = get h (w_buf w) /\ get h (w_buf (fst r)) = [].
+Proof.
+  intros sg w h. unfold recv_all. generalize (@nil (N * list val)) as loc. revert w.
+  induction (sg_recv sg) as [|e recv IH]; intros w loc ND Hin; [destruct Hin|].
+  cbn [fold_left map] in *. inversion ND as [|? ? Hnotin ND']; subst.
+  destruct Hin as [He|Hin].
+  - subst e. cbn [fst] in Hnotin.
+    destruct (recv_step (w, loc) (h, false)) as [w2 l2] eqn:E.
+    destruct (recv_fold_other recv w2 l2 h Hnotin) as [H1 [H2 H3]].
+    destruct (recv_step_direct w loc h) as [H4 [H5 H6]]. unfold bufs in *. rewrite E in H4, H5, H6.
+    cbn [fst snd] in *. cbv zeta in *. split; congruence.
+  - assert (Hne : h <> fst e).
+    { intro Heq. apply Hnotin. rewrite <- Heq. change h with (fst (h, false)). apply in_map. exact Hin. }
+    destruct (recv_step (w, loc) e) as [w2 l2] eqn:E.
+    destruct (IH w2 l2 ND' Hin) as [H1 H2].
+    destruct (recv_step_other w loc e h Hne) as [H4 [H5 H6]]. unfold bufs in *. rewrite E in H4, H5, H6.
+    cbn [fst snd] in *. cbv zeta in *. split; congruence.
+Qed.
+
+(* pushing into a handoff appends: nothing already pushed this tick is lost or reordered *)
+Lemma push_to_get : forall k l m, get k (push_to k l m) = get k m ++ l.
+Proof. intros. unfold push_to, get. apply lookup_update_same. Qed.
+
+Lemma push_to_other : forall k k' l m, k <> k' -> get k (push_to k' l m) = get k m.
+Proof. intros. unfold push_to, get. apply lookup_update_other. assumption. Qed.
